@@ -663,7 +663,7 @@ func (c *checker) partC() {
 		{"memory", small, []int{1, 2}, []float64{0, u1}},
 		{"memory-noret", small, []int{1, 2}, []float64{0}},
 		{"sqlite", small, []int{1, 2}, []float64{0}},
-		{"sqlite-noret", small, []int{1}, []float64{0.5}},
+		{"sqlite-noret", small, []int{1}, []float64{u1}},
 	}
 	if r.Thorough() {
 		jobs = []job{
